@@ -430,23 +430,26 @@ impl Obs {
         }
     }
 
-    /// id-free rendering (change ids, parents' change ids, tree ids, descriptions, wc)
+    /// id-free rendering (labels, parents' labels, tree ids, descriptions, wc). Commits created
+    /// by jj itself (second half of a split, re-created working-copy commit) have random change
+    /// ids; they are rendered as "new".
     fn key(&self) -> String {
+        let label = |c: &Commit| -> String {
+            let bytes = c.change_id().as_bytes();
+            if bytes.len() == 16 && bytes.iter().all(|b| *b == bytes[0]) { format!("c{}", bytes[0] as i32 - 1) } else { "new".to_string() }
+        };
         let mut rows: Vec<String> = self
             .nodes
             .values()
             .map(|c| {
-                let mut ps: Vec<String> = c
-                    .parent_ids()
-                    .iter()
-                    .map(|p| self.nodes.get(p).map(|pc| pc.change_id().hex()).unwrap_or_else(|| "root".into()))
-                    .collect();
+                let mut ps: Vec<String> =
+                    c.parent_ids().iter().map(|p| self.nodes.get(p).map(&label).unwrap_or_else(|| "root".into())).collect();
                 ps.sort();
-                format!("{}|{}|{:?}|{}", c.change_id().hex(), ps.join(","), c.tree_ids(), c.description().trim_end())
+                format!("{}|{}|{:?}|{}", label(c), ps.join(","), c.tree_ids(), c.description().trim_end())
             })
             .collect();
         rows.sort();
-        format!("{}#wc={}", rows.join(";"), self.wc.as_ref().map(|c| c.change_id().hex()).unwrap_or_default())
+        format!("{}#wc={}", rows.join(";"), self.wc.as_ref().map(&label).unwrap_or_default())
     }
 }
 
@@ -573,6 +576,8 @@ struct Tally {
     cli_snapshot_ops: Counter,
     op_error_samples: Mutex<BTreeMap<String, u64>>,
     states: Mutex<HashSet<u64>>,
+    /// determinism gate: full rendering (with commit ids) of every state seen
+    digests: Mutex<Option<Vec<String>>>,
 }
 
 impl Tally {
@@ -612,6 +617,15 @@ fn oracle(t: &Transition, tally: &Tally) -> (Vec<Fail>, bool) {
     tally.per_op_add(opn, 0);
     tally.state(&before.key());
     tally.state(&after.key());
+    if let Some(d) = tally.digests.lock().unwrap().as_mut() {
+        for obs in [before, after] {
+            // cli engine: ids are functions of the case (seed and clock are per command);
+            // lib engine: jj draws change ids for the commits it creates from a generator that
+            // lives as long as the worker's repository, so only the id-free key is compared.
+            let ids: Vec<String> = if t.engine == "cli" { obs.nodes.keys().map(|id| id.hex()).collect() } else { vec![] };
+            d.push(format!("{} ids={}", obs.key(), ids.join(",")));
+        }
+    }
 
     let anc_x = before.ancestors(x.id());
     let desc_x = before.descendants(x.id());
@@ -1087,17 +1101,25 @@ fn run_jj(jjv: &Path, env_root: &Path, ws_root: &Path, command_number: i64, args
     CliRun { status: out.status.code(), stderr: String::from_utf8_lossy(&out.stderr).to_string() }
 }
 
-fn cli_args(op: &OpSpec, before_commits: &[Commit]) -> Vec<String> {
-    // change ids survive the snapshot the command may take first (commit ids do not)
+fn cli_args(op: &OpSpec, before_commits: &[Commit], wc: usize) -> Vec<String> {
+    // Change ids survive the snapshot the command may take first (commit ids do not). When the
+    // source is the working-copy commit the command's default (@) is used.
     let _ = before_commits;
     let hex = |l: usize| change_id_of(l).reverse_hex();
     let mut args: Vec<String> = vec![];
     match op {
         OpSpec::Squash { x } => {
-            args.extend(["squash".into(), "-r".into(), hex(*x), "-u".into()]);
+            args.push("squash".into());
+            if *x != wc {
+                args.extend(["-r".into(), hex(*x)]);
+            }
+            args.push("-u".into());
         }
         OpSpec::Absorb { x, into } => {
-            args.extend(["absorb".into(), "--from".into(), hex(*x)]);
+            args.push("absorb".into());
+            if *x != wc {
+                args.extend(["--from".into(), hex(*x)]);
+            }
             if let Some(labels) = into {
                 for l in labels {
                     args.extend(["--into".into(), hex(*l)]);
@@ -1105,7 +1127,11 @@ fn cli_args(op: &OpSpec, before_commits: &[Commit]) -> Vec<String> {
             }
         }
         OpSpec::Split { x, paths } => {
-            args.extend(["split".into(), "-r".into(), hex(*x), "-m".into(), "selected".into()]);
+            args.push("split".into());
+            if *x != wc {
+                args.extend(["-r".into(), hex(*x)]);
+            }
+            args.extend(["-m".into(), "selected".into()]);
             for p in paths {
                 args.push(format!("root-file:\"{p}\""));
             }
@@ -1173,7 +1199,7 @@ fn run_cli_case(ctx: &Ctx, tally: &Tally, case: &Case) -> (bool, bool) {
             PState::Other => machinery_failure("non-file state for the disk"),
         }
     }
-    let args = cli_args(op, &built.commits);
+    let args = cli_args(op, &built.commits, case.wc);
     let t0 = phase(1, t0);
     let run = run_jj(&jjv, &env_root, &ws_root, 1, &args);
     let t0 = phase(2, t0);
@@ -1332,9 +1358,21 @@ fn line_alphabet(path: &str) -> Vec<Edits> {
     out
 }
 
-/// F1: linear stacks over the line-level alphabet.
-fn family_linear(n: usize, all_subsets: bool) -> Family {
-    let mut alphabet = line_alphabet("f");
+/// F1: linear stacks over the line-level alphabet (`full`: all 18 edits; otherwise 10 of them).
+fn family_linear(n: usize, all_subsets: bool, full: bool) -> Family {
+    let mut alphabet = if full {
+        line_alphabet("f")
+    } else {
+        vec![
+            edits(&[("f", "mod0")]),
+            edits(&[("f", "mod1")]),
+            edits(&[("f", "mod2")]),
+            edits(&[("f", "ins1")]),
+            edits(&[("f", "del1")]),
+            edits(&[("f", "new")]),
+            edits(&[("f", "mod0"), ("f", "mod1")]),
+        ]
+    };
     alphabet.push(edits(&[("g", "new")]));
     alphabet.push(edits(&[("f", "mod1"), ("g", "mod0")]));
     alphabet.push(vec![]);
@@ -1342,14 +1380,15 @@ fn family_linear(n: usize, all_subsets: bool) -> Family {
     let size = product(&dims);
     let description = format!(
         "linear stacks of {n} commits: c0 creates f and g (3 lines each), every later commit applies one of {} edits \
-         (12 single line-level edits of f, 3 two-line edits of f, rewrite of g, f+g, empty change); the last commit is the \
+         ({}); the last commit is the \
          working-copy commit without description; operations: squash of every commit c1.. into its parent, absorb from every \
          commit c1.. into {}",
         alphabet.len(),
+        alphabet.iter().map(|e| if e.is_empty() { "empty".to_string() } else { e.iter().map(|(p, x)| format!("{p}:{x}")).collect::<Vec<_>>().join("+") }).collect::<Vec<_>>().join(", "),
         if all_subsets { "every non-empty subset of its ancestors" } else { "all commits, each single ancestor, each complement of a single ancestor" }
     );
     Family {
-        name: format!("lib-linear-{n}"),
+        name: format!("lib-linear-{n}-{}", alphabet.len()),
         description,
         size,
         gen_cases: Box::new(move |idx| {
@@ -1493,7 +1532,7 @@ fn family_cli(thorough: bool) -> Family {
     // (parents relative to the stack, edits) building blocks
     let base = CommitSpec { parents: vec![], edits: edits(&[("f", "new"), ("g", "new"), ("d/h", "new")]), nodesc: false };
     let middles: Vec<Edits> = if thorough {
-        vec![edits(&[("f", "mod0")]), edits(&[("f", "mod1"), ("g", "mod0")]), edits(&[("d/h", "mod1")]), vec![]]
+        vec![edits(&[("f", "mod0")]), edits(&[("f", "mod1"), ("g", "mod0")])]
     } else {
         vec![edits(&[("f", "mod1"), ("g", "mod0")])]
     };
@@ -1631,19 +1670,59 @@ fn main() {
         ctx.finish(Coverage { evaluations: 1, ..Default::default() });
     }
 
-    // Determinism gate: one case of each engine twice, same observations.
-    // (ids do not reach the oracle; this guards the construction itself)
+    // Determinism gate: one trace of each engine twice; the observations (including the commit
+    // ids, which never reach an oracle) must be identical.
+    for gate_case in [
+        Case {
+            engine: "lib".into(),
+            commits: vec![
+                CommitSpec { parents: vec![], edits: edits(&[("f", "new")]), nodesc: false },
+                CommitSpec { parents: vec![0], edits: edits(&[("f", "mod1")]), nodesc: false },
+                CommitSpec { parents: vec![1], edits: edits(&[("f", "mod0"), ("f", "mod1")]), nodesc: false },
+                CommitSpec { parents: vec![2], edits: edits(&[("f", "mod2")]), nodesc: true },
+            ],
+            wc: 3,
+            ops: vec![OpSpec::Absorb { x: 2, into: None }, OpSpec::Squash { x: 3 }],
+            dirty: false,
+        },
+        Case {
+            engine: "cli".into(),
+            commits: vec![
+                CommitSpec { parents: vec![], edits: edits(&[("f", "new"), ("g", "new")]), nodesc: false },
+                CommitSpec { parents: vec![0], edits: edits(&[("f", "mod1")]), nodesc: false },
+                CommitSpec { parents: vec![1], edits: edits(&[("f", "mod0"), ("g", "mod1")]), nodesc: true },
+            ],
+            wc: 2,
+            ops: vec![OpSpec::Split { x: 2, paths: vec!["g".into()] }],
+            dirty: true,
+        },
+    ] {
+        let mut seen: Vec<Vec<String>> = vec![];
+        for _ in 0..2 {
+            let gate_tally = Tally::default();
+            *gate_tally.digests.lock().unwrap() = Some(vec![]);
+            let (valid, _) = run_case(&ctx, &gate_tally, &gate_case);
+            let digest = gate_tally.digests.lock().unwrap().take().unwrap();
+            if !valid || digest.is_empty() {
+                machinery_failure("determinism gate: the gate case did not execute");
+            }
+            seen.push(digest);
+        }
+        if seen[0] != seen[1] {
+            machinery_failure(&format!("determinism gate ({}): two runs of the same case differ:\n{:?}\n{:?}", gate_case.engine, seen[0], seen[1]));
+        }
+    }
     let mut families: Vec<Family> = vec![];
     if ctx.quick() {
-        families.push(family_linear(4, true));
+        families.push(family_linear(4, true, true));
         families.push(family_shapes(4, 2, "rich"));
         families.push(family_sequences(3));
         families.push(family_cli(false));
     } else {
-        families.push(family_linear(4, true));
-        families.push(family_linear(5, false));
-        families.push(family_shapes(4, 3, "rich"));
-        families.push(family_shapes(5, 2, "small"));
+        families.push(family_linear(4, true, true));
+        families.push(family_linear(5, false, false));
+        families.push(family_shapes(4, 2, "rich"));
+        families.push(family_shapes(5, 1, "small"));
         families.push(family_sequences(4));
         families.push(family_cli(true));
     }
